@@ -114,12 +114,6 @@ def Snap.name (s : Snap) : Name := snapshotName s.isPartial s.start s.stop
 def Skipped (n : Name) : Prop :=
   parseFileName n = .noMatch ∨ ∃ fi, parseFileName n = .ok fi ∧ fi.withTraceID = true
 
-theorem snapName_split (s : Snap) : ∃ r, s.name = pad10 s.stop ++ r := by
-  unfold Snap.name snapshotName fullName partialName
-  cases s.isPartial
-  · exact ⟨_, by simp only [Bool.false_eq_true, if_false, List.append_assoc]; rfl⟩
-  · exact ⟨_, by simp only [if_true, List.append_assoc]; rfl⟩
-
 /-- **Listing is complete.**  Let the object store hold the names `names` (in any order; `ListSnapshotFiles`
 sees them in lexicographic order), each of which is the name of a saved snapshot with a non-empty range
 (`start < stop`: segments are never empty, C13) and an end block of at most ten digits, or an object the walk
@@ -151,8 +145,9 @@ theorem list_complete (stops : Bool) (below : Nat) (names : List Name) (snaps : 
       injection hp with hp
       subst hp
       have htv := hvalid t ht
-      obtain ⟨r1, e1⟩ := snapName_split t
-      obtain ⟨r2, e2⟩ := snapName_split s
+      obtain ⟨r1, e1⟩ := snapshotName_split t.isPartial t.start t.stop
+      obtain ⟨r2, e2⟩ := snapshotName_split s.isPartial s.start s.stop
+      change nameLe (snapshotName t.isPartial t.start t.stop) (snapshotName s.isPartial s.start s.stop) = true at hle
       rw [e1, e2] at hle
       have hpre := nameLe_prefix (pad10 t.stop) (pad10 s.stop) r1 r2
         (by rw [pad10_length htv.2, pad10_length hsv.2]) hle
